@@ -44,6 +44,17 @@ type wrapReadme struct {
 	V int      `ion:"v"`
 	A []string `ion:",annotations"`
 }
+
+// wrapEmbPtr reaches its value field through an embedded pointer that is nil in a fresh target.
+type wrapAmount struct{ Value int }
+type wrapEmbPtr struct {
+	*wrapAmount
+	Ann []ion.SymbolToken `ion:",annotations"`
+}
+type wrapEmbVal struct {
+	wrapAmount
+	Ann []ion.SymbolToken `ion:",annotations"`
+}
 type lobStruct struct {
 	K []byte `ion:"k"`
 	N int    `ion:"n"`
@@ -67,6 +78,7 @@ var unTargets = map[string]reflect.Type{
 	"*int": reflect.TypeOf(new(int)), "**int": reflect.TypeOf(new(*int)), "*string": reflect.TypeOf(new(string)), "*[]byte": reflect.TypeOf(new([]byte)),
 	"interface{}": tIface, "Timestamp": tTimestamp, "time.Time": tTime, "Decimal": tDecimal, "*Decimal": reflect.PtrTo(tDecimal), "big.Int": tBigInt, "*big.Int": reflect.PtrTo(tBigInt),
 	"SymbolToken": tSymTok, "wrapInt": reflect.TypeOf(wrapInt{}), "wrapAny": reflect.TypeOf(wrapAny{}), "wrapStr": reflect.TypeOf(wrapStr{}), "wrapReadme": reflect.TypeOf(wrapReadme{}),
+	"wrapEmbPtr": reflect.TypeOf(wrapEmbPtr{}), "wrapEmbVal": reflect.TypeOf(wrapEmbVal{}), "[]wrapEmbPtr": reflect.TypeOf([]wrapEmbPtr(nil)), "*wrapEmbPtr": reflect.TypeOf(&wrapEmbPtr{}),
 	"[][]byte": reflect.TypeOf([][]byte(nil)), "lobStruct": reflect.TypeOf(lobStruct{}), "map[string][]byte": reflect.TypeOf(map[string][]byte(nil)),
 	"uintptr": reflect.TypeOf(uintptr(0)), "[]uint16": reflect.TypeOf([]uint16(nil)), "[][]int": reflect.TypeOf([][]int(nil)), "chan int": reflect.TypeOf((chan int)(nil)),
 }
@@ -133,6 +145,13 @@ func isWrapper(t reflect.Type) (reflect.Type, bool) {
 
 // expect classifies the (value, target) cell from the documented mapping.
 func expect(v *model.Value, t reflect.Type) expectation {
+	// wrappers whose value field is promoted from an embedded struct: the harness has no image for
+	// them, so only the absence of a panic is demanded
+	for _, et := range []reflect.Type{reflect.TypeOf(wrapEmbPtr{}), reflect.TypeOf(wrapEmbVal{})} {
+		if t == et || t == reflect.PtrTo(et) || t == reflect.SliceOf(et) {
+			return exOpen
+		}
+	}
 	for t.Kind() == reflect.Ptr {
 		if v.IsNull {
 			return exMustBeNilOrOK
